@@ -3,7 +3,7 @@
 Every model returns a list of results: ('val', env, path, value) or ('diverge' | 'unreachable', env, path).
 They are the documented semantics of the functions, written once here instead of being re-derived from
 the (specialised, unsafe) library source."""
-from .sem import (model, Loop, Iter, Path, Cx, NONE, UNIT, OPTION, RESULT, CONTROL, some, mk_variant, ITER_TRAITS)
+from .sem import (model, Loop, Iter, Path, Cx, PseudoCallee, NONE, UNIT, OPTION, RESULT, CONTROL, some, mk_variant, ITER_TRAITS)
 
 # unary adaptors that neither drop nor reorder nor transform elements
 IDENTITY_ADAPTORS = set(["cloned", "copied", "by_ref", "fuse", "peekable"])
@@ -704,3 +704,41 @@ def it_collect(ev, cx, args):
     val = ("call", cx.site, (recv,))
     ev.callees[cx.site] = cx.callee
     return model_loop(ev, cx, "collect", recv, body, lambda env, L: val)
+
+
+# ---------------------------------------------------------------------------- std::collections::hash_map::Entry
+
+HASH_ENTRY = "std::collections::hash_map::Entry"
+
+
+def _entry_or_insert(ev, cx, args, make):
+    """`entry.or_insert_with(f)` is `match entry { Occupied(o) => o.into_mut(), Vacant(v) => v.insert(f()) }`."""
+    e = args[0]
+    out = []
+    sp = ev.split_variant(e, HASH_ENTRY, cx.path, cx.site)
+    envs = _fork(cx, len(sp))
+    for i, (n, p) in enumerate(sp):
+        env = envs[i]
+        if n == "Occupied":
+            site = (cx.fid, (cx.bb, "into_mut"))
+            c = PseudoCallee("into_mut", path="std::collections::hash_map::OccupiedEntry::into_mut")
+            out.extend(ev.opaque(site, c, (ev.payload(e, HASH_ENTRY, "Occupied"),), env, p))
+        else:
+            for r in make(env, p):
+                if r[0] != "val":
+                    out.append(r)
+                    continue
+                site = (cx.fid, (cx.bb, "vinsert"))
+                c = PseudoCallee("insert", path="std::collections::hash_map::VacantEntry::insert")
+                out.extend(ev.opaque(site, c, (ev.payload(e, HASH_ENTRY, "Vacant"), r[3]), r[1], r[2]))
+    return out
+
+
+@model("or_insert_with", "hashentry")
+def entry_or_insert_with(ev, cx, args):
+    return _entry_or_insert(ev, cx, args, lambda env, p: _apply(ev, cx, args[1], (), env, p, "f", 1))
+
+
+@model("or_insert", "hashentry")
+def entry_or_insert(ev, cx, args):
+    return _entry_or_insert(ev, cx, args, lambda env, p: [("val", env, p, args[1])])
